@@ -77,8 +77,18 @@ def run(ctx):
     g = C.cfg_of(fn)
     loads = [n for n in own_nodes(fn.node) if isinstance(n, ast.Call) and C.is_ext_call(ctx, n, fn, ("pyben.load",))]
     dumps = [n for n in own_nodes(fn.node) if isinstance(n, ast.Call) and C.is_ext_call(ctx, n, fn, ("pyben.dumps",))]
-    if not loads or not dumps:
-        raise AnalysisError("anchor vanished: pyben.load / pyben.dumps in commands.magnet")
+    if not loads:
+        raise AnalysisError("anchor vanished: pyben.load in commands.magnet")
+    if not dumps:
+        # some other encoder feeds the digests: its output is not established to be the file's info bytes
+        hashed = [n for n in own_nodes(fn.node) if isinstance(n, ast.Call) and C.is_ext_call(ctx, n, fn, ("hashlib.sha1", "hashlib.sha256")) and n.args]
+        if not hashed:
+            raise AnalysisError("anchor vanished: digest computation in commands.magnet")
+        for h in hashed:
+            t = flow.term(h.args[0], fn)
+            enc = sorted({x[1] for x in walk_terms(t) if x[0] in ("ext",) and x[1].startswith("pyben")} | {"%s.%s" % ("pyben", x[1]) for x in walk_terms(t) if x[0] == "meth" and x[1] in ("encode",)})
+            ctx.violated("C11.1", fn, "the digest is taken over the output of %s, not of pyben.dumps: only pyben.dumps(load(x)) is established to reproduce the file's info bytes (pyben's class-based "
+                         "encoder, for instance, prefixes strings with their character count, not their UTF-8 byte count)" % (", ".join(enc) or norm(h.args[0])), h)
     # ---- C11.1
     roots = set()
     for l in loads:
